@@ -103,6 +103,7 @@ Proof.
        [|split; [first [exact Hmain|intros Hx; discriminate Hx]|exact Hmain]] end);
     unfold nca_stmt; intros Hn; cbn [nca ids_ok] in *; try exact I; try discriminate.
   - unfold nonbuiltin. destruct (is_builtin_name x); [discriminate|reflexivity].
+  - (* EInRef: reads `inputs`, which is not the name of a built-in *) reflexivity.
   - match goal with HF : Forall _ items |- _ => induction HF as [|[ld a tr] l Ha _ IHl] end; [exact I|].
     cbn [cnode] in Ha. apply andb_true_iff in Hn. destruct Hn as [H1 H2]. split; [apply (proj1 Ha); exact H1|apply IHl; exact H2].
   - match goal with HF : Forall _ entries |- _ => induction HF as [|[ld [k v] tr] l Ha _ IHl] end; [exact I|].
